@@ -505,8 +505,10 @@ def random_norm_run(rng, n, max_events=6):
         for _ in range(nk):
             kno += 1
             rkind = rng.choice(["plain", "hdf5", "hdf5path", "hdf5ds"])
+            # freset: the detector's frame counter starts again every `freset` exposures (a file writer rolling over): the
+            # stream's indices must go on counting
             keys.append({"name": f"det{d}_img{kno}", "rkind": rkind, "frames": (not modern) and rng.random() < 0.5,
-                         "res": None})
+                         "freset": rng.choice([0, 0, 2, 2, 3]), "res": None})
         for j, kk in enumerate(keys):
             kk["res"] = keys[0]["name"] + "-res" if shared else kk["name"] + "-res"
             if shared:
@@ -571,7 +573,7 @@ def random_norm_run(rng, n, max_events=6):
             did = f"{kk['name']}/{s}"
             kw = {"dataset": "/entry/d"} if kk["rkind"] != "plain" else {"point_number": s - 1}
             if kk["frames"]:
-                kw["frame"] = s - 1
+                kw["frame"] = (s - 1) % kk["freset"] if kk["freset"] else s - 1
             dat = ("datum", {"datum_id": did, "resource": kk["res"], "datum_kwargs": kw})
             if late_all or rng.random() < p_late:
                 late.append(dat)
